@@ -44,6 +44,15 @@ class SizingSetModel(ModelObj):
     def py_truth(self, st):
         return either(*self.has.values())
 
+    def py_len(self, st):
+        return self.py_iter(None, st).py_len(st)
+
+    def py_iter(self, ip, st):
+        """Iteration: every candidate of the universe under its membership guard (pyvc.seqs.GuardedSeq: folds only)."""
+        from pyvc.seqs import GuardedSeq
+
+        return GuardedSeq([(h, x) for x, h in self.has.items()])
+
     def py_contains(self, ip, st, x):
         x = st.force(x)
         if x in self.has:
